@@ -40,7 +40,7 @@ def proto_runs(mode):
             runs += [("main", ["--mode", mode, "--a", "1", "--b", "1", "--mtu", "1500", "--wifi", "0"])]
         if mode == "c02":               # every (service, opcode, sequence number, sender, destination) frame in 4 states
             runs += [("main", ["--mode", mode, "--a", "4", "--mtu", "1500", "--wifi", "0"])]
-        if mode == "c03":               # every single failing getter, and all of them
+        if mode in ("c02", "c03"):      # every single failing getter, and all of them
             runs += [("main", ["--mode", mode, "--a", "5", "--mtu", "1500", "--wifi", "1"])]
         if mode == "c03":               # every 16-bit generation / sequence number in 10 states per service
             runs += [("main", ["--mode", mode, "--a", "3", "--mtu", "1500", "--wifi", "0"])]
@@ -94,11 +94,15 @@ def fsm_runs(mode):
         runs.append(("main", ["--mode", mode + "-closure"] + extra))
         if mode == "c14":
             runs.append(("main", ["--mode", "c14-closure", "--a", "1"]))      # two session-table keys, reduced alphabet
+        # the same core compiled for an ABI whose plain char is unsigned (ARM, PowerPC, Xtensa: the embedded targets)
+        runs.append(("uchar", ["--mode", mode + "u-steps"]))
+        runs.append(("uchar", ["--mode", mode + "u-closure"]))
         return runs
     return f
 
 
-FSM = {"main": {"sources": MC + ["mc/darwin.c", "checks/fsm.c"], "modes": ["c14-steps", "c14-closure", "c15-steps", "c15-closure"]}}
+FSM = {"main": {"sources": MC + ["mc/darwin.c", "checks/fsm.c"], "modes": ["c14-steps", "c14-closure", "c15-steps", "c15-closure"]},
+       "uchar": {"sources": MC + ["mc/darwin.c", "checks/fsm.c"], "core_defs": ["-funsigned-char"], "modes": ["c14u-steps", "c14u-closure", "c15u-steps", "c15u-closure"]}}
 def c16_runs(tier):
     runs = []
     for a in (0, 1):
